@@ -6,7 +6,7 @@ from harness import core, gen, common
 ID = 'C08'
 LEAN_TARGETS = ['Props.C08']
 # Tie A: equivalence theorems generated from the current source by translate/py2lean.py (checked on every run)
-TIE_A = ['sig_%s_documented' % m for m in ('g2c', 'g3c', 'gac', 'dpga', 'dg3c')] + ['conf_consts_eq', 'conf_up_eq', 'conf_homo_eq', 'conf_down_eq'] + ['meth_commutator_eq', 'meth_anticommutator_eq']
+TIE_A = ['sig_%s_documented' % m for m in ('g2c', 'g3c', 'gac', 'dpga', 'dg3c')] + ['conf_consts_eq', 'conf_up_eq', 'conf_homo_eq', 'conf_down_eq'] + ['meth_commutator_eq', 'meth_anticommutator_eq'] + ['gac_down_up', 'gac_down_up_model', 'dpga_down_up', 'dpga_down_up_model', 'dg3c_down_up', 'dg3c_down_up_model']
 OBLIGATIONS = [
     'C08.eo_is_null', 'C08.einf_is_null', 'C08.eo_dot_einf_eq', 'C08.E0_squares_to_one', 'C08.up_is_null', 'C08.up_dot_einf_eq',
     'C08.distance_identity', 'C08.homo_removes_scale', 'C08.down_up_id', 'C08.model_satisfies_relations',
@@ -14,7 +14,9 @@ OBLIGATIONS = [
 ]
 PARTIAL = ['the identities use a.b = (ab+ba)/2 and v^E0 = (vE0+E0v)/2; both are proved equal to the coded inner/outer-product tables (inner_is_half_anticommutator, '
            'vector_wedge_bivector), but the abstract statements and the table-level statements are joined by these lemmas on paper, not by one composite Lean theorem',
-           'gac / dpga / dg3c up/down round trips: no Lean theorem (fixed 8- and 10-dimensional algebras); decided by exact evaluation on the implementation only']
+           'gac / dpga / dg3c: down(up(x)) = x is a generated theorem (translate/shipped2lean.py) from the generator relations of the module\'s signature, for all rational '
+           'coordinates, also instantiated in the model Cl n sig; `^` and `|` enter by the half-sum formulas (same join as above), the coefficient reads `[()]`, `.value[1:4]` '
+           'as the model\'s coefficient functionals; float rounding of the real evaluation is outside']
 RULE = ("base signatures (p,q) with p+q<=4 (quick) / <=6 (thorough), every split; base vectors with integer and dyadic coordinates over 2^-10..2^20, "
         "non-zero dyadic scales; gac/dpga/dg3c points with dyadic coordinates. Non-trivial = non-zero base vector; distinct = distinct (p,q,x,y,s)")
 ASSUMPTIONS = ["float results on dyadic inputs are exact when all intermediate values fit in 53 bits; otherwise compared with the exact rational value "
